@@ -238,6 +238,9 @@ def _make_cases(wrappers):
             # smaller programs: all/3 enumerates every subset of the probabilistic answers of the collected goal
             prog = draw(gp.programs(min_queries=2, allow_neg_query=False, max_preds=3, max_clauses=2, max_consts=2,
                                     allow_body_or=False))
+        elif draw(st.integers(0, 2)) == 0:
+            # a binary relation called with different variable-sharing patterns (p(X,X) / p(X,Y) must not share a table)
+            prog = draw(gp.programs(min_queries=3, allow_neg_query=False, share_bias=True, max_preds=3))
         else:
             prog = draw(gp.programs(min_queries=3, allow_neg_query=False))
         base = [s for s in prog if s[0] not in ("query", "evidence")]
@@ -252,6 +255,10 @@ def _make_cases(wrappers):
             p = draw(st.sampled_from(preds))
             atom = [p[0], [["a", draw(st.sampled_from(["a", "b"]))] for _ in range(p[1])]]
             (qpool if draw(st.booleans()) else epool).append(atom)
+        for p in preds:
+            if p[1] == 2 and draw(st.integers(0, 2)) == 0:
+                qpool.append([p[0], [["v", "X"], ["v", "X"]]])
+                qpool.append([p[0], [["v", "X"], ["v", "Y"]]])
         ops = []
         wrappable = [p for p in preds if p[1] >= 1]
         if wrappers and wrappable:
